@@ -223,7 +223,7 @@ theorem print_parse (s : DSymData) (c c' : Nat) (h : SymInv s) (h1 : 1 ≤ s.siz
   obtain ⟨t, ht, hsame⟩ := fromSpec_displaySpec s c c' h h1 h2 hf.dim hf.table
   refine ⟨render (displaySpec s c c'), t, fmt_eq_render s c c' h N, ?_, hsame⟩
   unfold parse
-  have := lex_render_aux (displaySpec s c c') (displaySpec_printed s c c' h h1 h2 hf) [] True.intro
+  have := lex_render_aux (displaySpec s c c') (displaySpec_printed s c c' h h1 h2 hf) []
   rw [List.append_nil] at this
   rw [this]
   exact ht
